@@ -352,6 +352,87 @@ func compare(t *gx509.Certificate, p *gx509.Certificate, parent *gx509.Certifica
 	return d
 }
 
+// bundleUnit: two parse paths that must agree. Certificates from every template variation (plus a
+// bare template without any extension, issued by a CA without a subject key id) are concatenated in
+// every ordered pair and parsed with ParseCertificates; each element must be deeply equal to what
+// ParseCertificate gives for the same DER on its own - nothing may leak from one certificate of a
+// bundle into the next. The same certificate is also parsed twice in a row.
+func bundleUnit(part, parts int) harness.Unit {
+	return harness.Unit{Name: fmt.Sprintf("bundles/part%d", part), Run: func(c *harness.Ctx) {
+		s := signers()[0]
+		subj := &sm2k.Alphabet()[8].Lib().PublicKey
+		type item struct {
+			name string
+			der  []byte
+			one  *gx509.Certificate
+		}
+		var items []item
+		add := func(name string, t, parent *gx509.Certificate, key crypto.Signer) {
+			der, err := gx509.CreateCertificate(t, parent, subj, key)
+			if err != nil {
+				return
+			}
+			one, err := gx509.ParseCertificate(der)
+			if err != nil {
+				return
+			}
+			items = append(items, item{name, der, one})
+		}
+		for _, tc := range templateCases() {
+			t := baseTemplate()
+			tc.mod(t)
+			t.SignatureAlgorithm = gx509.SM2WithSM3
+			add(tc.name, t, s.ca, s.key)
+		}
+		// a CA without subject key id and a leaf without any extension-producing field
+		bareCA := &gx509.Certificate{SerialNumber: big.NewInt(900), Subject: pkix.Name{CommonName: "bare CA"}, NotBefore: date(2020, 1, 1), NotAfter: date(2030, 1, 1),
+			IsCA: true, BasicConstraintsValid: true, MaxPathLen: 1, KeyUsage: gx509.KeyUsageCertSign | gx509.KeyUsageCRLSign, DNSNames: []string{"ca.example"}, SignatureAlgorithm: gx509.SM2WithSM3}
+		caKey := sm2k.Alphabet()[5].Lib()
+		if der, err := gx509.CreateCertificate(bareCA, bareCA, &caKey.PublicKey, caKey); err == nil {
+			if ca, err := gx509.ParseCertificate(der); err == nil {
+				items = append(items, item{"bare CA (no subject key id)", der, ca})
+				bare := &gx509.Certificate{SerialNumber: big.NewInt(901), Subject: pkix.Name{CommonName: "bare leaf"}, NotBefore: date(2020, 1, 1), NotAfter: date(2030, 1, 1), SignatureAlgorithm: gx509.SM2WithSM3}
+				if d2, err := gx509.CreateCertificate(bare, ca, subj, caKey); err == nil {
+					if one, err := gx509.ParseCertificate(d2); err == nil {
+						items = append(items, item{"bare leaf (no extension-producing field)", d2, one})
+					}
+				}
+			}
+		}
+		n := 0
+		for i, a := range items {
+			for j, b := range items {
+				n++
+				if n%parts != part {
+					continue
+				}
+				c.Add("evaluations", 1)
+				c.DistinctS("nontrivial", fmt.Sprintf("bundle/%d/%d", i, j))
+				tag := fmt.Sprintf("bundle [%s, %s]", a.name, b.name)
+				c.Guard("bundle-panic", tag, nil, func() {
+					got, err := gx509.ParseCertificates(append(append([]byte{}, a.der...), b.der...))
+					if err != nil || len(got) != 2 {
+						c.Violate("bundle-parse", fmt.Sprintf("[%s] ParseCertificates: %d certificates, error %v", tag, len(got), err), nil, nil)
+						return
+					}
+					for k, want := range []*gx509.Certificate{a.one, b.one} {
+						if !reflect.DeepEqual(got[k], want) {
+							c.Violate("bundle-element-differs-from-single-parse", fmt.Sprintf("[%s] element %d parsed as part of the bundle differs from ParseCertificate of the same DER (IsCA %v/%v, KeyUsage %v/%v, DNSNames %v/%v, %d/%d extensions)", tag, k, got[k].IsCA, want.IsCA, got[k].KeyUsage, want.KeyUsage, got[k].DNSNames, want.DNSNames, len(got[k].Extensions), len(want.Extensions)), nil, nil)
+							return
+						}
+					}
+					// and the single-certificate parser after the bundle parser
+					again, err := gx509.ParseCertificate(b.der)
+					if err != nil || !reflect.DeepEqual(again, b.one) {
+						c.Violate("parse-depends-on-earlier-parse", fmt.Sprintf("[%s] ParseCertificate after ParseCertificates gives another result", tag), nil, nil)
+					}
+				})
+			}
+		}
+		c.Sample(fmt.Sprintf("every ordered pair of %d certificates (all template variations, bare CA, bare leaf) parsed as one bundle and compared with the single parses", len(items)))
+	}}
+}
+
 func certUnit(si int) harness.Unit {
 	return harness.Unit{Name: fmt.Sprintf("certificates/signer%d", si), Run: func(c *harness.Ctx) {
 		ss := signers()
@@ -804,7 +885,7 @@ func c09objects(c *harness.Ctx, s *signer) {
 var Prop = &harness.Prop{
 	ID:          "C09",
 	Level:       "exploration",
-	Rule:        "one-at-a-time product: 58 template variations (serials incl. negative/20-byte, names, validity boundaries, every KeyUsage bit, every ExtKeyUsage, basic constraints/path lengths, SAN kinds, name constraints, policies, CRL DP/AIA, extra extension, key ids) x signer {SM2, RSA-2048, P-256, P-384} x signature algorithm {unset + the signer's family; all 9 incl. mismatching ones on the base template}; CSRs (5 templates) and CRLs (CreateCRL, CreateRevocationList x 9 algorithms x 3 revoked sets) likewise. For every object inside the premise: creation, parse-back field by field, verification under the issuer, failure under other keys. Fault enumeration: every byte of the signed part and of the signatureValue BIT STRING (tag, length, unused-bits octet, contents) of one certificate, one certificate request and one revocation list per signer x {b^1,b^0x80,00,ff} must fail to parse or verify; the unused-bits octet set to 1..7 on 10 objects of each kind. Distinct/non-trivial = distinct case labels / mutated DERs.",
+	Rule:        "one-at-a-time product: 58 template variations (serials incl. negative/20-byte, names, validity boundaries, every KeyUsage bit, every ExtKeyUsage, basic constraints/path lengths, SAN kinds, name constraints, policies, CRL DP/AIA, extra extension, key ids) x signer {SM2, RSA-2048, P-256, P-384} x signature algorithm {unset + the signer's family; all 9 incl. mismatching ones on the base template}; CSRs (5 templates) and CRLs (CreateCRL, CreateRevocationList x 9 algorithms x 3 revoked sets) likewise. For every object inside the premise: creation, parse-back field by field, verification under the issuer, failure under other keys. Fault enumeration: every byte of the signed part and of the signatureValue BIT STRING (tag, length, unused-bits octet, contents) of one certificate, one certificate request and one revocation list per signer x {b^1,b^0x80,00,ff} must fail to parse or verify; the unused-bits octet set to 1..7 on 10 objects of each kind. Bundles: every ordered pair of certificates from all template variations (plus a CA without key id and a leaf without extensions) parsed by ParseCertificates must equal the single parses. Distinct/non-trivial = distinct case labels / mutated DERs.",
 	Assumptions: []string{"RSA/ECDSA issuer certificates are created with Go's crypto/x509 and parsed by the package", "signature values are randomised inside the library (not observed)"},
 	Bounds: func(tier string) string {
 		if tier == "thorough" {
@@ -816,6 +897,9 @@ var Prop = &harness.Prop{
 		var u []harness.Unit
 		for i := 0; i < 4; i++ {
 			u = append(u, certUnit(i), csrUnit(i), crlUnit(i), faultUnit(i))
+		}
+		for p := 0; p < 4; p++ {
+			u = append(u, bundleUnit(p, 4))
 		}
 		return u
 	},
